@@ -73,6 +73,55 @@ pub struct Req {
     /// What the handler must be told: (content type Debug text, expect flag, cookies, chunked, gzip).
     pub meta: Option<Meta>,
 }
+
+/// All acceptable expectations for a connection: the primary reading, plus - for messages
+/// that carry both a transfer coding and a Content-Length (ambiguous per RFC 7230 3.3.3) -
+/// the readings in which such a message is rejected outright with a 400 or (length 0 only) framed
+/// by its length with the coding merely reported. The statement pins none of them.
+pub fn model_conn_variants(reqs: &[Req], cfg: &ServerCfg, ambiguous: &[usize]) -> Vec<ConnExpect> {
+    // every combination of readings of the ambiguous messages (there are few of them)
+    let mut variants: Vec<Vec<Req>> = vec![reqs.to_vec()];
+    for &i in ambiguous.iter().take(3) {
+        if i >= reqs.len() {
+            continue;
+        }
+        let mut next = Vec::new();
+        for base in &variants {
+            next.push(base.clone()); // coding reported, refused when read
+            for m in [Malf::TransferEncoding, Malf::ContentLength] {
+                let mut alt = base.clone();
+                alt[i].kind = ReqKind::Malformed(m);
+                alt[i].meta = None;
+                next.push(alt);
+            }
+            // framed by its (zero) length with the coding merely reported: the statement's
+            // "single valid Content-Length N" clause read literally
+            if base[i].meta.as_ref().and_then(|m| m.content_length) == Some(0) {
+                let mut alt = base.clone();
+                alt[i].kind = ReqKind::Known(0);
+                next.push(alt);
+            }
+        }
+        variants = next;
+    }
+    variants.iter().map(|r| model_conn(r, cfg)).collect()
+}
+
+/// Passes if ANY acceptable expectation matches; otherwise reports against the primary one.
+pub fn check_conn_any(prop: &str, conn_label: &str, variants: &[ConnExpect], calls: &[Call], transcript: &[u8], at_eof: bool) -> Option<Violation> {
+    let mut first = None;
+    for e in variants {
+        match check_conn(prop, conn_label, e, calls, transcript, at_eof) {
+            None => return None,
+            Some(v) => {
+                if first.is_none() {
+                    first = Some(v);
+                }
+            }
+        }
+    }
+    first
+}
 #[derive(Clone, Debug, PartialEq, Eq)]
 pub struct Meta {
     pub ctype: Option<String>,
@@ -500,6 +549,15 @@ pub fn diff_resp(e: &ExpResp, r: &Resp) -> Option<String> {
     }
     if e.code != r.code {
         return Some(format!("status {} but {} was expected", r.code, e.code));
+    }
+    if e.user_headers.is_none() {
+        // Library-generated response (error page, interim 100): the properties fix its
+        // status, not its wording. Only the 5xx close marking is checked besides.
+        let close = r.header_all("connection");
+        if (500..600).contains(&e.code) && close != vec!["close"] {
+            return Some(format!("5xx response without `connection: close` (got {close:?})"));
+        }
+        return None;
     }
     if e.body != r.body {
         return Some(format!("body differs: got {} bytes {:?}, expected {} bytes", r.body.len(), gen::show(&r.body), e.body.len()));
